@@ -13,7 +13,7 @@ WALL_CAP_S = 120
 NO_RERUN = True
 DDMIN_FIELDS = ('programs',)
 RULE = ('one run = a seeded corpus of 4-10 programs compiled by 2-4 fresh interpreters, each started with its own seeded '
-        'PYTHONHASHSEED, fake clock (epoch, rate) and fake pid, each following its own seeded history (permutation, subsample, '
+        'PYTHONHASHSEED, fake clock (epoch, rate), fake pid and private working directory (compile_prolog_from_file is used as well as compile_prolog_from_string; options objects are plain classes, the library default or subclasses of CompilerContext), each following its own seeded history (permutation, subsample, '
         'repeats, interleaved debug-option variants incl. a debug stream that fails with an I/O error at its n-th write; the corpus also holds look-alike '
         'twins and variants that make the compiler raise in the middle of a clause); a case = one (program text, options) target; non-trivial = the target '
         'was compiled at least twice under different hash seeds or at different history positions and its text has a clause '
@@ -29,7 +29,10 @@ COMPONENTS = {'real': ['yldprolog.compiler pipeline incl. ANTLR runtime, one fre
 REQUIRED_PROBES = ('outcome_EXC:OSError', 'outcome_EXC:CompilerError', 'interpreters', 'targets_compared_across_hashseeds', 'targets_compared_across_positions')
 
 OPTIONS = [['', False, False], ['src/a.pl', False, False], ['', False, True], ['b.pl', True, True], ['', True, False], ['lib/b.pl', False, False],
-           ['', False, True, 3], ['', True, True, 40]]      # 4th element: the debug stream raises OSError at its n-th write (I/O fault)
+           ['', False, True, 3], ['', True, True, 40],      # 4th element: the debug stream raises OSError at its n-th write (I/O fault)
+           # 5th: options object = 'plain' class / the library's 'default' / a 'subclass' of CompilerContext; 6th: from 'string' or 'file'
+           ['', False, False, None, 'default', 'string'], ['', False, False, None, 'default', 'file'],
+           ['x', False, False, None, 'subclass', 'string'], ['x', False, False, None, 'subclass', 'file'], ['', False, False, None, 'plain', 'file']]
 
 
 def gen(seed, tier):
@@ -52,6 +55,9 @@ def gen(seed, tier):
             hist.insert(rng.randrange(len(hist) + 1), [k, 0])
         # ... and program 0 under both file-name options (same text, other options, same process)
         for o in (1, 5):
+            hist.insert(rng.randrange(len(hist) + 1), [0, o])
+        # ... and program 0 through the library's own options objects, from a string and from a file
+        for o in (10, 11):
             hist.insert(rng.randrange(len(hist) + 1), [0, o])
         workers.append({'hashseed': rng.randrange(0, 4294967295), 'clock': [rng.randrange(10**9, 2 * 10**9), rng.choice([0.001, 1, 3600, 86400 * 40])],
                         'history': hist, 'pid': rng.randrange(2, 4194304)})
